@@ -1,5 +1,8 @@
 use rusty_common::*;
-use rusty_parser::{CaseBlock, CaseExpression, ExpressionPos, Operator, SelectCase, Statements};
+use rusty_parser::{
+    CaseBlock, CaseExpression, ExpressionPos, HasExpressionType, Name, Operator, SelectCase,
+    Statements, TypeQualifier,
+};
 
 use super::{Instruction, InstructionGenerator, Visitor};
 
@@ -11,22 +14,28 @@ impl InstructionGenerator {
             else_block,
             ..
         } = s;
-        self.generate_eval_select_case_expr(expr, pos);
-        self.generate_case_blocks(case_blocks, else_block.is_some(), pos);
-        self.generate_else_block(else_block, pos);
-        // every path (matched CASE, no match, CASE ELSE) arrives here with the SELECT value still on the stack
-        self.label(labels::end_select(), pos);
-        // need to pop value from stack because it was pushed by `generate_eval_select_case_expr`
-        self.push(Instruction::PopValueStackIntoA, pos);
-    }
-
-    /// Evaluate SELECT CASE x into A
-    fn generate_eval_select_case_expr(&mut self, expr: ExpressionPos, pos: Position) {
+        // The value that is being selected on is kept in a variable of its own (not on a stack),
+        // so that leaving the SELECT with GOTO, jumping into it, or resuming after an error
+        // cannot leave a value behind or take one that is not there.
+        let q = expr
+            .expression_type()
+            .opt_qualifier()
+            .unwrap_or(TypeQualifier::BangSingle);
+        let selected = Self::hidden_variable_name("SELECT CASE", q, pos);
         self.generate_expression_instructions(expr);
-        self.push(Instruction::PushAToValueStack, pos);
+        self.store_hidden_variable(&selected, pos);
+        self.generate_case_blocks(case_blocks, else_block.is_some(), &selected, pos);
+        self.generate_else_block(else_block, pos);
+        self.label(labels::end_select(), pos);
     }
 
-    fn generate_case_blocks(&mut self, case_blocks: Vec<CaseBlock>, has_else: bool, pos: Position) {
+    fn generate_case_blocks(
+        &mut self,
+        case_blocks: Vec<CaseBlock>,
+        has_else: bool,
+        selected: &Name,
+        pos: Position,
+    ) {
         let case_blocks_len = case_blocks.len();
         for (case_block_index, case_block) in case_blocks.into_iter().enumerate() {
             // mark the beginning of this case block
@@ -41,6 +50,7 @@ impl InstructionGenerator {
             self.generate_case_expressions(
                 expression_list,
                 next_case_label.as_str(),
+                selected,
                 pos,
                 case_block_index,
             );
@@ -63,7 +73,6 @@ impl InstructionGenerator {
             self.label(labels::case_else(), pos);
             self.visit(e);
             // to be able to RESUME NEXT after an error in the last statement
-            // (the next instruction pops the SELECT value from the stack)
             self.mark_statement_address();
         }
     }
@@ -72,6 +81,7 @@ impl InstructionGenerator {
         &mut self,
         case_expressions: Vec<CaseExpression>,
         next_case_label: &str,
+        selected: &Name,
         pos: Position,
         case_block_index: usize,
     ) {
@@ -93,7 +103,7 @@ impl InstructionGenerator {
                     // otherwise we jump to the next CASE expr within the same CASE block
                     labels::case_expr(case_block_index, case_expr_index + 1)
                 };
-                self.generate_case_expression(case_expr, &next_label, pos);
+                self.generate_case_expression(case_expr, &next_label, selected, pos);
                 if !is_last {
                     // if this expression matched, jump directly into the CASE block statements and do not evaluate the rest
                     self.jump(&labels::case_statements(case_block_index), pos);
@@ -102,7 +112,7 @@ impl InstructionGenerator {
         } else {
             // single expr is simpler
             for case_expr in case_expressions {
-                self.generate_case_expression(case_expr, next_case_label, pos);
+                self.generate_case_expression(case_expr, next_case_label, selected, pos);
             }
         }
     }
@@ -111,17 +121,18 @@ impl InstructionGenerator {
         &mut self,
         case_expression: CaseExpression,
         next_case_label: &str,
+        selected: &Name,
         pos: Position,
     ) {
         match case_expression {
             CaseExpression::Simple(e) => {
-                self.generate_case_expr_simple(e, next_case_label, pos);
+                self.generate_case_expr_simple(e, next_case_label, selected, pos);
             }
             CaseExpression::Is(op, e) => {
-                self.generate_case_expr_is(op, e, next_case_label, pos);
+                self.generate_case_expr_is(op, e, next_case_label, selected, pos);
             }
             CaseExpression::Range(from, to) => {
-                self.generate_case_expr_range(from, to, next_case_label, pos);
+                self.generate_case_expr_range(from, to, next_case_label, selected, pos);
             }
         }
     }
@@ -130,9 +141,10 @@ impl InstructionGenerator {
         &mut self,
         e: ExpressionPos,
         next_case_label: &str,
+        selected: &Name,
         pos: Position,
     ) {
-        self.generate_comparison_expr(e, pos);
+        self.generate_comparison_expr(e, selected, pos);
         self.push(Instruction::Equal, pos);
         self.jump_if_false(next_case_label, pos);
     }
@@ -142,9 +154,10 @@ impl InstructionGenerator {
         op: Operator,
         e: ExpressionPos,
         next_case_label: &str,
+        selected: &Name,
         pos: Position,
     ) {
-        self.generate_comparison_expr(e, pos);
+        self.generate_comparison_expr(e, selected, pos);
         match op {
             Operator::Less => self.push(Instruction::Less, pos),
             Operator::LessOrEqual => self.push(Instruction::LessOrEqual, pos),
@@ -162,27 +175,32 @@ impl InstructionGenerator {
         from: ExpressionPos,
         to: ExpressionPos,
         next_case_label: &str,
+        selected: &Name,
         pos: Position,
     ) {
-        self.generate_comparison_expr(from, pos);
+        self.generate_comparison_expr(from, selected, pos);
         // compare select expr with lower bound, must be >=
         self.push(Instruction::GreaterOrEqual, pos);
         // jump out if it isn't >=
         self.jump_if_false(next_case_label, pos);
         // evaluate to -> A
-        self.generate_comparison_expr(to, pos);
+        self.generate_comparison_expr(to, selected, pos);
         self.push(Instruction::LessOrEqual, pos);
         self.jump_if_false(next_case_label, pos);
     }
 
-    fn generate_comparison_expr(&mut self, comparison_expr: ExpressionPos, pos: Position) {
+    fn generate_comparison_expr(
+        &mut self,
+        comparison_expr: ExpressionPos,
+        selected: &Name,
+        pos: Position,
+    ) {
         // evaluate the comparison expression into A
         self.generate_expression_instructions(comparison_expr);
         // copy from -> B
         self.push(Instruction::CopyAToB, pos);
         // get select expr back into A
-        self.push(Instruction::PopValueStackIntoA, pos);
-        self.push(Instruction::PushAToValueStack, pos);
+        self.load_hidden_variable(selected, pos);
     }
 }
 
